@@ -504,13 +504,15 @@ that was added and not removed since is known; it is up unless the last call abo
 (and its `HostInfo` state is up).
 
 FULL PROPERTY: the drained iterator offers exactly the hosts that are expected by the history, each once.
-The unchanged code violates the "nothing else" half in two situations, which are the hypotheses of
-`C11_history_exact_partial`:
+The code (with the repair of KF-C10-4) violates the "nothing else" half in two situations, which are the
+hypotheses of `C11_history_exact_partial`:
   * ghost: `HostUp(h)` for a host that is not known (never added, or removed) puts it into the round-robin
     lists (`HostUp` = `AddHost` there): `C11_cex_ghost_hostup`;
-  * stale replica: the replica table of a keyspace still lists a host that was removed or reported down
-    (tables of keyspaces other than the session's are not recomputed on topology changes, `HostDown` does not
-    touch them): the token-aware replica phase offers it if its `HostInfo` state is up: `C11_cex_stale_replica`.
+  * stale replica, KF-C11-5 (case (b) only): the replica table of a keyspace still lists a host that was reported
+    down with `HostDown` (which touches no table): the token-aware replica phase offers it if its `HostInfo`
+    state is up: `C11_cex_stale_replica`. (Case (a) of the finding - a REMOVED host still listed by the table of a
+    keyspace other than the session's - is gone with the repair of KF-C10-4: every held table is recomputed on
+    every change of the host list, `C11_replica_tables_fresh`; regression `example` on the old definition below.)
 The "every expected host is offered" half holds for every history (`C11_history_complete`).
 Assumption of both: two different host objects of the history have different connect addresses (`NoAlias`;
 the lists identify hosts by address). -/
@@ -717,18 +719,27 @@ theorem history_exact_core (k : Kind) (ldc lrack : Nat) (sh nl ps : Bool) (sess 
 /-! ### which replica lists are FRESH — the exact extent of finding KF-C11-5
 
 `AddHost` / `RemoveHost` that change the policy's host list rebuild the token ring and recompute the replica
-table of the SESSION keyspace (`updateReplicas(meta, t.getKeyspaceName())`) under the policy's mutex; nothing
-else is recomputed (the tables of other keyspaces only on `KeyspaceChanged`), and `HostUp` / `HostDown` touch
-neither. So a replica list taken from the ring or from the session keyspace's table only lists hosts that are
-added and not removed; what stays excluded is (a) a removed host in the table of ANOTHER keyspace and (b) a
-host reported down (`HostDown`) whose state is still up — `C11_cex_stale_replica`. -/
+table of the session keyspace AND of every other keyspace a table is held for (`updateAllReplicas(meta)`, the
+repair of KF-C10-4) under the policy's mutex; `KeyspaceChanged(ks)` recomputes the table of `ks` from the current
+ring; `HostUp` / `HostDown` touch nothing. So a replica list taken from the ring or from ANY table the policy
+computed itself only lists hosts that are added and not removed; what stays excluded is (b) a host reported
+down (`HostDown`) whose state is still up — `C11_cex_stale_replica`. The only tables that can list a host the
+policy does not know are those installed from outside (the hook `setReplicas`, an instrument of the harness, not a
+path of the code): for them "lists only known hosts" is an assumption on the installed table. -/
 
-/-- the replica list of the query comes from the session keyspace's table (into which no table was installed
-from outside) or from the token ring -/
-def FreshQuery (t : TA) (ops : List TAOp) (rk : Option (Nat × Nat)) : Prop :=
+/-- the replica list of the query comes from a table the policy computed itself — session keyspace or not: no
+table was installed from outside for that keyspace, or the policy has recomputed it since (`dirtyOf`: `setReplicas ks`
+marks `ks`; `KeyspaceChanged ks` and every `AddHost` / `RemoveHost` that changes the host list clear it) — or from the
+token ring -/
+def FreshQuery (t0 : TA) (ops : List TAOp) (rk : Option (Nat × Nat)) : Prop :=
   match rk with
   | none => True
-  | some (ks, tok) => (t.sessKs = some ks ∧ ∀ o ∈ ops, o.noInject ks) ∨ (∃ l, t.replicasFor ks tok = .hosts l false)
+  | some (ks, tok) => ks ∉ dirtyOf t0 ops ∨ (∃ l, (ops.foldl TA.apply t0).replicasFor ks tok = .hosts l false)
+
+/-- in particular: no table was ever installed from outside for the keyspace of the query -/
+theorem freshQuery_of_noInject (t0 : TA) (ops : List TAOp) (ks tok : Nat) (hn : ∀ o ∈ ops, o.noInject ks) :
+    FreshQuery t0 ops (some (ks, tok)) :=
+  Or.inl (runDirty_noInject ops (t0, []) ks (by simp) hn)
 
 theorem hostsHist_final (k : Kind) (ldc lrack : Nat) (sh nl ps : Bool) (sess : Option Nat) (ops : List TAOp) (hna : NoAlias ops) :
     ∀ x, x ∈ (ops.foldl TA.apply (TA.new (Pol.new k ldc lrack) sh nl ps sess)).hosts ↔
@@ -743,19 +754,23 @@ theorem hostsHist_final (k : Kind) (ldc lrack : Nat) (sh nl ps : Bool) (sess : O
 
 /-- In every reachable state (any history of AddHost / RemoveHost / HostUp / HostDown / KeyspaceChanged /
 metadata changes / replica tables installed from outside into OTHER keyspaces / picks), for every query whose
-replica list comes from the session keyspace's table or from the token ring: every host of the replica list is
-in the policy's own host list — and, the hosts of the history having pairwise different addresses, that list
-is exactly the hosts added and not removed since. A removed host is never a replica of such a query. -/
-theorem C11_session_table_fresh (k : Kind) (ldc lrack : Nat) (sh nl ps : Bool) (sess : Option Nat) (ops : List TAOp)
+replica list comes from a table the policy computed itself — the session keyspace's or ANY other keyspace's —
+(never installed from outside, or recomputed since: `FreshQuery`) or from the token ring: every host of the
+replica list is in the policy's own host list — and, the hosts of
+the history having pairwise different addresses, that list is exactly the hosts added and not removed since.
+A removed host is never a replica of such a query (full for case (a) of KF-C11-5). -/
+theorem C11_replica_tables_fresh (k : Kind) (ldc lrack : Nat) (sh nl ps : Bool) (sess : Option Nat) (ops : List TAOp)
     (σ : List Host → List Host) (hσ : ∀ l, (σ l).Perm l) (rk : Option (Nat × Nat)) (hna : NoAlias ops) :
     let t := ops.foldl TA.apply (TA.new (Pol.new k ldc lrack) sh nl ps sess)
-    FreshQuery t ops rk →
+    FreshQuery (TA.new (Pol.new k ldc lrack) sh nl ps sess) ops rk →
     ∀ x ∈ (repsOf t σ rk).getD [], x ∈ t.hosts ∧ (statusOf (evsOf ops) x).known = true := by
   intro t hfq x hx
-  have hsess : t.sessKs = sess := (run_opts _ ops).2.2.1
-  have hfresh : (∀ ks, sess = some ks → ∀ o ∈ ops, o.noInject ks) → SessFresh t := fun hn =>
-    sessFresh_run ops (TA.new (Pol.new k ldc lrack) sh nl ps sess)
-      (fun s _ e he => by simp [TA.new] at he) hn
+  have hfresh : ∀ ks, ks ∉ dirtyOf (TA.new (Pol.new k ldc lrack) sh nl ps sess) ops → TabFresh t ks := by
+    intro ks hn
+    have := dirty_run ops (TA.new (Pol.new k ldc lrack) sh nl ps sess, [])
+      (fun ks' _ e he => by simp [TA.new] at he) ks hn
+    rw [runDirty_fst] at this
+    exact this
   suffices h : x ∈ t.hosts from ⟨h, (hostsHist_final k ldc lrack sh nl ps sess ops hna x).mp h⟩
   cases rk with
   | none => simp [repsOf] at hx
@@ -784,10 +799,8 @@ theorem C11_session_table_fresh (k : Kind) (ldc lrack : Nat) (sh nl ps : Bool) (
           obtain ⟨e, he, hlk⟩ := hl'
           obtain ⟨k', hk'⟩ := lookupTok_mem e.2 tok _ hlk
           have heks : e.1 = ks := by simpa using List.find?_some he
-          rcases hfq with ⟨h1, h2⟩ | ⟨l2, h2⟩
-          · have hs : sess = some ks := hsess ▸ h1
-            refine hfresh (fun ks' hk2 => ?_) ks h1 e (List.mem_of_find?_eq_some he) heks _ hk' x hxl
-            rw [hs] at hk2; injection hk2 with hk2; subst hk2; exact h2
+          rcases hfq with h2 | ⟨l2, h2⟩
+          · exact hfresh ks h2 e (List.mem_of_find?_eq_some he) heks _ hk' x hxl
           · rw [hr'] at h2; cases h2
         · split at hr
           · rename_i h hh
@@ -801,11 +814,13 @@ theorem C11_session_table_fresh (k : Kind) (ldc lrack : Nat) (sh nl ps : Bool) (
 
 /-- EXACTNESS against the history (partial — see the section comments): under the hypotheses of
 `C11_tokenaware_all_states_partial`, if no host is a ghost (KF-C11-4), no host of the specified replica head
-was last reported down by `HostDown` (KF-C11-5b), and the replica list is fresh — it comes from the SESSION
-keyspace's table or from the token ring — or else (the table of another keyspace, KF-C11-5a) lists no host
-that is not known, then the drained iterator offers EXACTLY the hosts the history expects, each once: `l` is a
-permutation of the expected hosts of any duplicate-free universe containing the hosts of the history.
-In particular a REMOVED host offered as replica for a query of the session keyspace is not excused. -/
+was last reported down by `HostDown` (KF-C11-5, case (b) — the only stale-replica case left after the repair of
+KF-C10-4), and the replica list comes from a table the policy computed itself (ANY keyspace; `FreshQuery`) or from
+the token ring — or else (a table installed from outside through the hook and not recomputed since: an assumption
+on that table, not on the code)
+lists no host that is not known, then the drained iterator offers EXACTLY the hosts the history expects, each
+once: `l` is a permutation of the expected hosts of any duplicate-free universe containing the hosts of the
+history. In particular a REMOVED host offered as replica for a query of ANY keyspace is not excused. -/
 theorem C11_history_exact_partial (k : Kind) (ldc lrack : Nat) (sh nl ps : Bool) (sess : Option Nat) (ops : List TAOp)
     (up : Nat → Bool) (σ : List Host → List Host) (hσ : ∀ l, (σ l).Perm l) (rk : Option (Nat × Nat)) (hna : NoAlias ops) :
     let t := ops.foldl TA.apply (TA.new (Pol.new k ldc lrack) sh nl ps sess)
@@ -813,7 +828,7 @@ theorem C11_history_exact_partial (k : Kind) (ldc lrack : Nat) (sh nl ps : Bool)
     (∀ e ∈ t.replicas, ∀ f ∈ e.2, f.2.Nodup) →
     (∀ x, (S x).ghost = false) →
     (∀ x ∈ specHead t.pol.tier t.pol.maxTier up nl ((repsOf t σ rk).getD []), (S x).last ≠ some .hdown) →
-    (FreshQuery t ops rk ∨
+    (FreshQuery (TA.new (Pol.new k ldc lrack) sh nl ps sess) ops rk ∨
       ∀ x ∈ specHead t.pol.tier t.pol.maxTier up nl ((repsOf t σ rk).getD []), (S x).known = true) →
     ∃ l, t.pickSeq up σ rk = .seq l ∧ (Pol.below t.pol → t.pickScan up σ rk = ⟨l, false⟩) ∧ l.Nodup ∧
       (∀ x, x ∈ l ↔ (S x).expected (up x.id) = true) ∧
@@ -827,7 +842,7 @@ theorem C11_history_exact_partial (k : Kind) (ldc lrack : Nat) (sh nl ps : Bool)
     · have hxr : x ∈ (repsOf t σ rk).getD [] := by
         rw [← taHead_eq_specHead] at hx
         exact (mem_taHead _ _ _ _ _ x hx).1
-      exact (C11_session_table_fresh k ldc lrack sh nl ps sess ops σ hσ rk hna hf x hxr).2
+      exact (C11_replica_tables_fresh k ldc lrack sh nl ps sess ops σ hσ rk hna hf x hxr).2
     · exact hf x hx
   have hl := hdown x hx
   simp only [Status.expected, Bool.and_true, Bool.and_eq_true, bne_iff_ne, ne_eq]
@@ -857,18 +872,49 @@ theorem C11_cex_ghost_hostup :
     (statusOf (evsOf [TAOp.add cexW1, .add cexW2, .remove cexW1, .hostUp cexW1]) cexW1).expected true = false := by
   decide
 
-/-- COUNTEREXAMPLE, stale replica (kernel-checked): token-aware over dc-aware; the replica table of keyspace 0
-lists the remote host r; after `RemoveHost(r)` — or after `HostDown(r)` with the `HostInfo` state still up — a
-routed query of that keyspace is still offered r, which the history does not expect -/
+/-- COUNTEREXAMPLE, stale replica, KF-C11-5 case (b) (kernel-checked): token-aware over round-robin; the replica
+table of keyspace 0 lists host 2; after `HostDown(2)` with the `HostInfo` state still up a routed query of that
+keyspace is still offered host 2 first, which the history does not expect -/
 theorem C11_cex_stale_replica :
-    ([TAOp.add cexW1, .add cexR, .setReplicas 0 [(100, [cexR, cexW1])], .remove cexR].foldl TA.apply
-        (TA.new (Pol.new .dc 0 0) false true true)).pickScan (fun _ => true) id (some (0, 50))
-      = ⟨[cexW1, cexR], false⟩ ∧
-    (statusOf (evsOf [TAOp.add cexW1, .add cexR, .setReplicas 0 [(100, [cexR, cexW1])], .remove cexR]) cexR).expected true = false ∧
     ([TAOp.add cexW1, .add cexW2, .setReplicas 0 [(100, [cexW2])], .hostDown cexW2].foldl TA.apply
         (TA.new (Pol.new .rr 0 0) false false true)).pickScan (fun _ => true) id (some (0, 50))
       = ⟨[cexW2, cexW1], false⟩ ∧
     (statusOf (evsOf [TAOp.add cexW1, .add cexW2, .setReplicas 0 [(100, [cexW2])], .hostDown cexW2]) cexW2).expected true = false := by
+  decide
+
+/-- the code BEFORE the repair of KF-C10-4 (`RemoveHost` recomputed the session keyspace's table only), kept for
+the regression example below -/
+def removeOld (t : TA) (h : Host) : TA :=
+  let r := cowRemove t.hosts h.addr
+  let t1 : TA := { t with hosts := r.1 }
+  { (if r.2 then (match t1.sessKs with | some ks => t1.updateReplicas ks | none => t1) else t1) with pol := t.pol.remove h }
+
+def cexO1 : Host := ⟨1, 1, 0, 0, [100]⟩
+def cexO9 : Host := ⟨9, 9, 1, 0, [900]⟩
+/-- REGRESSION (former case (a) of KF-C11-5, kernel-checked): token-aware over dc-aware with non-local fallback,
+session keyspace 0, keyspace 1 ANOTHER keyspace with SimpleStrategy rf 2 whose table the policy computed on
+`KeyspaceChanged(1)`: 100 → [1,9], 900 → [9,1]. After `RemoveHost(9)` the repaired code has recomputed the table
+of keyspace 1 (100 → [1]) and a routed query of keyspace 1 is offered host 1 only; the old code kept the table
+and offered the removed host 9. -/
+example :
+    let pre := [TAOp.setMeta 1 (some (some 2)), .add cexO1, .add cexO9, .keyspaceChanged 1]
+    let t := pre.foldl TA.apply (TA.new (Pol.new .dc 0 0) false true true (some 0))
+    t.replicas = [(1, [(100, [cexO1, cexO9]), (900, [cexO9, cexO1])])] ∧
+    (t.remove cexO9).replicas = [(1, [(100, [cexO1])])] ∧
+    (t.remove cexO9).pickScan (fun _ => true) id (some (1, 500)) = ⟨[cexO1], false⟩ ∧
+    (removeOld t cexO9).pickScan (fun _ => true) id (some (1, 500)) = ⟨[cexO1, cexO9], false⟩ ∧
+    (statusOf (evsOf (pre ++ [.remove cexO9])) cexO9).expected true = false := by
+  decide
+
+/-- a table installed from outside lives until the next change of the policy's host list: with keyspace 0 unknown
+to the metadata the table is dropped by `RemoveHost(9)` (the query falls back to the ring owner), with keyspace 0
+known (SimpleStrategy rf 1) it is replaced by the table the policy computes itself -/
+example :
+    let t := [TAOp.add cexO1, .add cexO9, .setReplicas 0 [(100, [cexO9, cexO1])]].foldl TA.apply
+      (TA.new (Pol.new .dc 0 0) false true true)
+    (t.remove cexO9).replicas = [] ∧
+    (t.remove cexO9).pickScan (fun _ => true) id (some (0, 50)) = ⟨[cexO1], false⟩ ∧
+    ((t.setMeta 0 (some (some 1))).remove cexO9).replicas = [(0, [(100, [cexO1])])] := by
   decide
 
 def cexS1 : Host := ⟨1, 1, 0, 0, [100]⟩
@@ -877,7 +923,7 @@ def cexS2 : Host := ⟨2, 2, 0, 0, [200]⟩
 fallback, session keyspace 0 with SimpleStrategy rf 1 (table computed by the policy itself: 100 → [1], 200 → [2]);
 after `HostDown(2)` with the `HostInfo` state still up, a routed query of the session keyspace is offered host 2
 first although the history does not expect it — `HostDown` refreshes nothing. (After `RemoveHost(2)` it is not:
-the example after `C11_history_exact_partial`.) -/
+the example after `C11_history_exact_partial`, for any keyspace: the regression example above.) -/
 theorem C11_cex_stale_down_session :
     let ops := [TAOp.setMeta 0 (some (some 1)), .add cexS1, .add cexS2, .hostDown cexS2]
     let t := ops.foldl TA.apply (TA.new (Pol.new .rr 0 0) false false true (some 0))
